@@ -1219,6 +1219,35 @@ func upstreamRead(raw []byte, r *R) (string, bool, bool) {
 		if ok {
 			v = vTime(gtOf(t))
 		}
+	case "optint":
+		if r.Bits != 64 {
+			return "", false, false
+		}
+		before := len(s)
+		if r.Signed {
+			var x int64
+			ok = s.ReadOptionalASN1Integer(&x, ucbasn1.Tag(r.Tag), bigOf(r.Dz).Int64())
+			v = vOpt(len(s) != before, vZ(big.NewInt(x)))
+		} else {
+			var x uint64
+			ok = s.ReadOptionalASN1Integer(&x, ucbasn1.Tag(r.Tag), bigOf(r.Dz).Uint64())
+			v = vOpt(len(s) != before, vZ(new(big.Int).SetUint64(x)))
+		}
+	case "optbigint":
+		before := len(s)
+		z := new(big.Int)
+		ok = s.ReadOptionalASN1Integer(z, ucbasn1.Tag(r.Tag), bigOf(r.Dz))
+		v = vOpt(len(s) != before, vZ(z))
+	case "optoctets":
+		var out []byte
+		var present bool
+		ok = s.ReadOptionalASN1OctetString(&out, &present, ucbasn1.Tag(r.Tag))
+		v = vOpt(present, vBytes(out))
+	case "optasn1":
+		var out ucb.String
+		var present bool
+		ok = s.ReadOptionalASN1(&out, &present, ucbasn1.Tag(r.Tag))
+		v = vOpt(present, vBytes(out))
 	default:
 		return "", false, false
 	}
@@ -1666,7 +1695,7 @@ func mutate(c *vh.Ctx, b []byte) []byte {
 		case 0:
 			b[i] ^= 1 << uint(c.Intn(8))
 		case 1:
-			b[i] = []byte{0, 1, 0x7f, 0x80, 0x81, 0x82, 0x83, 0x84, 0x85, 0xff, 0x1f, 0x30, '0', '9', ':', '/', 'Z', '+', '-'}[c.Intn(19)]
+			b[i] = []byte{0, 1, 0x7f, 0x80, 0x81, 0x82, 0x83, 0x84, 0x85, 0xff, 0x1f, 0x30, '0', '9', ':', '/', 'Z', '+', '-', '.', ','}[c.Intn(21)]
 		case 2:
 			b = b[:i]
 		case 3:
@@ -1747,6 +1776,34 @@ func gen(c *vh.Ctx) {
 			m = mutate(c, out)
 		}
 		runRaw(c, input{Rs: []R{r}, Raw: vh.Hex(m)}, "rcase")
+	}
+	// 4b. explicit wrappers holding a value AND surplus content, read by the optional value readers
+	for i := 0; i < nraw/8; i++ {
+		tag := lowTags[c.Intn(len(lowTags))]
+		var inner W
+		var r R
+		switch c.Intn(3) {
+		case 0:
+			inner = W{K: "int64", Z: genInt64(c).String()}
+			r = R{K: "optint", Tag: tag, Signed: true, Bits: 64, Dz: "3"}
+		case 1:
+			inner = W{K: "bigint", Z: genBig(c).String()}
+			r = R{K: "optbigint", Tag: tag, Dz: "-4"}
+		default:
+			inner = W{K: "octets", Hex: vh.Hex(c.Bytes(c.Intn(5)))}
+			r = R{K: "optoctets", Tag: tag}
+		}
+		extra := genW(c, 0, false)
+		if c.Bool() {
+			extra = W{K: "raw", Hex: vh.Hex(c.Bytes(1 + c.Intn(3)))}
+		}
+		body := []W{inner, extra}
+		if c.Intn(4) == 0 {
+			body = []W{inner} // well-formed control
+		}
+		if out, ok := build([]W{{K: "asn1", Tag: tag, Body: body}}); ok && len(out) < 400 {
+			runRaw(c, input{Rs: []R{r}, Raw: vh.Hex(append(out, c.Bytes(c.Intn(3))...))}, "rcase")
+		}
 	}
 	// 5. short random strings against every reader kind
 	for i := 0; i < nraw/2; i++ {
